@@ -437,6 +437,7 @@ func init() {
 			c.Require("porcupine_ok")
 			c.Require("direct_duplicate_rounds")
 			c.Require("process_replays_refused_across_reload")
+			c.Require("process_replays_refused_on_legacy_port")
 			c.Require("e2e_refused_copies_with_probe_deadline")
 			c.Require("e2e_replays_refused_after_runtime_resize")
 			if c.Batch%2 == 0 {
